@@ -150,7 +150,9 @@ def emit_c(name, prog, out, depth=0):
                 lines.append(p + "}")
 
     gen(prog["main"], 1)
-    out.append("static int %s(vp_ctx_t *c)\n{\n\tPT_BEGIN(&c->pt);\n%s\n\tPT_END();\n}\n" % (name, "\n".join(lines)))
+    # pt_t is 16 bits wide and stores __LINE__: restart the line numbering for every function so that a large generated
+    # file does not run past 65535 (labels only need to be unique within one function)
+    out.append("#line 10\nstatic int %s(vp_ctx_t *c)\n{\n\tPT_BEGIN(&c->pt);\n%s\n\tPT_END();\n}\n" % (name, "\n".join(lines)))
 
 
 # ---------------------------------------------------------------- program set
